@@ -179,7 +179,8 @@ class Listings(Stage):
         initial = None
         if d.chance(0.3):
             initial = scripts.gen_matcher_text(d, rm.Gen(d, rm.vocab(specs), 1))
-        items = scripts.gen_script(d, specs, 'new', list_heavy=True, depth=2)
+        dialect = d.choice(['new', 'new', 'old'])      # what libwayland 1.22+ prints, or the older print-out of the same traffic
+        items = scripts.gen_script(d, specs, dialect, list_heavy=True, depth=2)
         # the same text given to `filter` (extending a filter) and then to `list`: the listing must mean just that text
         if d.chance(0.4):
             V = rm.vocab(specs)
@@ -215,7 +216,7 @@ class Listings(Stage):
         for _ in range(d.int(1, 3)):
             items.append(['cmd', 'list ' + scripts.gen_matcher_text(d, g) + d.choice(['', ' ~ 1', ' ~ 2', ' ~ 3', ' ~ 100'])])
         # the final listings are typed at the tool's own prompt after the input ended (file / run mode) or between lines
-        return dict(dialect='new', specs=specs, initial_filter=initial, items=items, prompt=d.chance(0.5))
+        return dict(dialect=dialect, specs=specs, initial_filter=initial, items=items, prompt=d.chance(0.5))
 
     def execute(self, case):
         res = Result()
